@@ -117,6 +117,7 @@ func (g *Gen) callCommon(in *ssa.Call, common *ssa.CallCommon, args []*SV, st *S
 		}
 	}
 	if key != "" {
+		g.lockOrder(key, common, st, reach, pos)
 		if con, ok := g.cs.Funcs[key]; ok {
 			g.contractCall(in, con, callee, common, args, st, reach, pos)
 			return
@@ -427,6 +428,69 @@ func (g *Gen) contractCall(in *ssa.Call, con *Contract, callee *ssa.Function, co
 		default:
 			g.vals[in] = &SV{T: in.Type(), Tup: results}
 		}
+	}
+}
+
+// lockOrder: with "opt: lock-order=a<b<c" (field names of mutexes, in the order in which they may be
+// nested) every Lock/RLock of a listed field is an obligation: no listed lock of the same or a later
+// position is held at that point. Held locks are ghost booleans in the state (set by Lock/RLock,
+// cleared by Unlock/RUnlock, merged at joins like any other state).
+func (g *Gen) lockOrder(key string, common *ssa.CallCommon, st *State, reach string, pos token.Pos) {
+	order := g.con.Opts["lock-order"]
+	if order == "" || len(common.Args) == 0 {
+		return
+	}
+	var op string
+	switch key {
+	case "sync.(*RWMutex).Lock", "sync.(*RWMutex).RLock", "sync.(*Mutex).Lock":
+		op = "lock"
+	case "sync.(*RWMutex).Unlock", "sync.(*RWMutex).RUnlock", "sync.(*Mutex).Unlock":
+		op = "unlock"
+	default:
+		return
+	}
+	fa, ok := common.Args[0].(*ssa.FieldAddr)
+	if !ok {
+		return
+	}
+	pt, ok := fa.X.Type().Underlying().(*types.Pointer)
+	if !ok {
+		return
+	}
+	stt, ok := pt.Elem().Underlying().(*types.Struct)
+	if !ok {
+		return
+	}
+	field := stt.Field(fa.Field).Name()
+	names := strings.Split(order, "<")
+	rank := -1
+	for i, n := range names {
+		if strings.TrimSpace(n) == field {
+			rank = i
+		}
+	}
+	if rank < 0 {
+		return
+	}
+	held := func(i int) string {
+		k := "lock.held." + strings.TrimSpace(names[i])
+		if v, ok := st.ghost[k]; ok {
+			return v
+		}
+		return "false"
+	}
+	if op == "lock" {
+		var none []string
+		for i := rank; i < len(names); i++ {
+			none = append(none, "(not "+held(i)+")")
+		}
+		n := g.safeCtr["lockorder"]
+		g.safeCtr["lockorder"]++
+		g.addObl("lock-order", fmt.Sprint(n), implies(reach, and(none...)), pos, "acquiring "+field+": neither it nor a lock that must be taken after it ("+order+") is held", nil)
+		st.ghost["lock.held."+field] = "true"
+		g.trusted["lock order checked for nestings inside one function only (locks held by callers are not tracked)"] = true
+	} else {
+		st.ghost["lock.held."+field] = "false"
 	}
 }
 
